@@ -2,4 +2,4 @@ From Coq Require Import List NArith Extraction ExtrOcamlBasic.
 From DDP Require Import Diag.Flags Diag.Render.
 Extraction Language OCaml.
 Extraction "c07_model.ml" run init step delivered any_faulty root_faulty delivered_error compile exit_status artifact
-  render_ok_fast excerpt_lines pinned repaired trace_discarded_instantiation trace_root_scanner_error.
+  render_ok_fast excerpt_lines handler_ok shown_lines pinned repaired trace_discarded_instantiation trace_root_scanner_error.
